@@ -52,6 +52,21 @@ class SymDefaultDict:
     def keys(self):
         return [k for k, _ in self.items_]
 
+    def values(self):
+        return [v for _, v in self.items_]
+
+    def items(self):
+        return list(self.items_)
+
+    def __iter__(self):
+        return iter(self.keys())
+
+    def __len__(self):
+        return len(self.items_)
+
+    def __contains__(self, k):
+        return any(kk is k or bool(kk == k) for kk, _ in self.items_)
+
 
 _done = False
 
